@@ -51,15 +51,24 @@ def run(res):
         if not (m.startswith("allocfail") or m.startswith("toolarge")):
             raise C.CheckFailure("model does not stop at the refused request: %s -> %s" % (mlines[0], m))
     # executor level: the interpreter context and the tape growth inside engines
+    cfgs = [(src, backend, w) for src in PROGRAMS for backend in ("inplace", "ir", "bc", "jit") for w in (8, 32)]
+    env = P.env_text(b"\x03\x02\x01")
+    base = C.run_lines(hv, ["runfail|%s|%d|2|-1|%s|%s" % (b, w, P.hexs(src), env) for (src, b, w) in cfgs])
     plines, pmeta = [], []
-    for src in PROGRAMS:
-        for backend in ("inplace", "ir", "bc", "jit"):
-            for w in (8, 32):
-                for kth in range(0, 6):
-                    plines.append("runfail|%s|%d|2|%d|%s|%s" % (backend, w, kth, P.hexs(src), P.env_text(b"\x03\x02\x01")))
-                    pmeta.append((src, backend, w, kth))
+    cap = 40 if res.tier == "quick" else 400
+    for (src, backend, w), b in zip(cfgs, base):
+        if b.startswith("timeout"):
+            nreq = 12          # divergent roaming program: the first requests are the growths
+        elif "requests=" in b:
+            nreq = int(b.split("requests=")[1])
+        else:
+            raise C.CheckFailure("fault-free run failed: %s %s -> %s" % (backend, src[:40], b[:200]))
+        ks = list(range(nreq)) if nreq <= cap else sorted(set(list(range(cap // 2)) + [rng.below(nreq) for _ in range(cap // 2)]))
+        for kth in ks:
+            plines.append("runfail|%s|%d|2|%d|%s|%s" % (backend, w, kth, P.hexs(src), env))
+            pmeta.append((src, backend, w, kth))
     pout = C.run_lines(hv, plines)
-    for mta, r in zip(pmeta, pout):
+    for idx, (mta, r) in enumerate(zip(pmeta, pout)):
         stats["fault_points"] += 1
         if r.startswith("signal:6") or r.startswith("panic:") or r.startswith("ok ") or r.startswith("timeout"):
             # 'ok': the k-th request did not occur in this run; timeout: divergent roaming program
@@ -70,16 +79,16 @@ def run(res):
             if rep < 6:
                 rep += 1
                 res.violation("allocation failure (request %d) in backend %s width %d did not abort cleanly: %s; program %r" % (mta[3], mta[1], mta[2], r[:100], mta[0][:100]),
-                              {"case": plines[pmeta.index(mta)], "implementation": r[:500]})
+                              {"case": plines[idx], "implementation": r[:500]})
     res.coverage.update({
         "evaluations": stats["fault_points"],
         "distinct_nontrivial": stats["aborted"],
-        "rule": "for each random tape history (generator of C09) the number k of growth requests is measured and the failing request is enumerated over 0..k-1 (every growth, both directions); additionally 6 roaming programs x 4 backends x 2 widths x failing zeroed-allocation request 0..5 (covers the interpreter context allocation); a child process whose global allocator returns null for that request must end by SIGABRT/panic; SIGSEGV or normal continuation is a violation; non-trivial = runs that actually reached the failing request and aborted",
+        "rule": "for each random tape history (generator of C09) the number k of allocator requests (alloc, alloc_zeroed and realloc all count) is measured and the failing request is enumerated over 0..k-1 (every growth, both directions); additionally 6 roaming programs x 4 backends x 2 widths, the number of allocator requests of the fault-free execution is measured and the failing request enumerated (all of them up to the tier's cap, beyond that the first half of the cap plus random ones); a child process whose global allocator returns null for that request must end by SIGABRT/panic; SIGSEGV or normal continuation is a violation; non-trivial = runs that actually reached the failing request and aborted",
         "samples": lines[:: max(1, len(lines) // 6)][:6],
         "stats": stats, "theorems": ["C17_alloc_fail_safe", "C17_alloc_fail_stops"],
         "obligations": res.coverage.get("obligations", 0), "discharged": res.coverage.get("discharged", 0),
     })
-    res.assumptions += ["only alloc_zeroed requests are failed (the two sites named by the property); allocation failure in Vec/HashMap growth of the compiler is the Rust runtime's own abort path"]
+    res.assumptions += ["every allocator entry point (alloc, alloc_zeroed, realloc) is failed in turn while the tape operations / the execution run; requests made by the Rust standard collections abort through the runtime's own handle_alloc_error path and count as clean aborts"]
     if broken and not res.violations:
         res.violation("proof side of C17 no longer checks: " + "; ".join(broken)[:1500], {"broken": broken, "theorem_file": "coq/theories/Props/C17.v"}, no_failing_input=True)
 
